@@ -182,6 +182,9 @@ def run(R, env):
     ctor = []
     for b in list(prog.fn_bodies(CRATE)) + list(prog.fn_bodies("milky_way")):
         for bi, si, t in aggregates(Ctx(b), lambda adt, var: adt.endswith("staking::Batch")):
+            sd_ = struct_deltas(t)
+            if sd_ and all(base_[0] != "agg" for base_, _ in sd_):
+                continue  # `Batch { f: v, ..loaded }`: an update of an existing batch, not a construction
             ctor.append(b.key)
     R.ob("C06.R2", "Batch-constructors", set(ctor) == {"milky_way::staking::Batch::new"}, "Batch values are constructed in %s; expected only the package constructor (which sets Pending)" % sorted(set(ctor)), fn="milky_way::staking::Batch::new")
     rm = []
